@@ -174,6 +174,7 @@ func (c *Client) authenticate() error {
 		return fmt.Errorf("authentication failed: %+v", messages[0])
 	}
 
+	var level interface{}
 	switch v := messages[0].Value.(type) {
 	default:
 		c.isAuthenticated = false
@@ -184,14 +185,16 @@ func (c *Client) authenticate() error {
 			c.isAuthenticated = false
 			return fmt.Errorf("authentication failed: %+v", AuthLevel(v))
 		}
+		level = v
 	case uint8:
 		if v == uint8(AUTH_LEVEL_NO_AUTH) {
 			c.isAuthenticated = false
 			return fmt.Errorf("authentication failed: %+v", AuthLevel(v))
 		}
+		level = AuthLevel(v)
 	}
 	c.isAuthenticated = true
-	Log.Infof("successfully authenticated (level: %s)", AuthLevel(messages[0].Value.(uint8)))
+	Log.Infof("successfully authenticated (level: %v)", level)
 	return nil
 }
 
